@@ -404,9 +404,9 @@ pub fn run_history_opt(rng: &mut Rng, init: Init, nunits: usize, oneshot: bool, 
     if rng.chance(1, 4) {
         let prefix = rng.pick(&["E result", "E proto", "E sched", "E state", "E progress", "E response"]).to_string();
         runner.contend = Some((prefix, rng.chance(2, 3)));
-        runner.storage = Some(storage.clone());
-        runner.app_set = Some(app_set.clone());
     }
+    runner.storage = Some(storage.clone());
+    runner.app_set = Some(app_set.clone());
     // all unit environments are generated up front (the hub switches to the next one by itself at
     // each unit boundary); reboot-wait steps stay symbolic until run time
     let mut envs: Vec<(UnitEnv, String)> = vec![];
